@@ -161,6 +161,14 @@ func (p *Program) applyStateSubst(e *Exec, env0 *SpecEnv, entry map[string]Term)
 		av := env0.addrExpr(x)
 		t := typeAt(av.Addr.Typ, av.Addr.Path)
 		srt := scalarSort(t)
+		if srt != nil && srt.K == SBool {
+			lit := tFalse
+			if e.subst[k] != 0 {
+				lit = tTrue
+			}
+			e.c.storeAt(entry, av.Addr, scalar(t, lit))
+			continue
+		}
 		if srt == nil || srt.K != SBV {
 			e.fail("split location %s is not an integer cell", k)
 		}
@@ -231,7 +239,7 @@ func (p *Program) verifyUnit(ct *Contract, subst map[string]int64, suffix string
 		return p.cs.Frozen[g] && !p.cs.Grounds[g]
 	}
 	e := &Exec{c: c, prog: p, unit: u.Name, props: ct.Props, trusted: map[string]bool{}, kindCnt: map[string]int{},
-		safety: true, nilcheck: ct.NilCheck, nosplit: ct.NoSplit, ghost: map[string]Val{}, reveal: map[string]bool{}}
+		safety: true, nilcheck: ct.NilCheck, nosplit: ct.NoSplit, abstractAll: ct.Abstract, inlines: ct.Inlines, pureCalls: ct.PureCalls, divAbstract: ct.DivAbstract, ghost: map[string]Val{}, reveal: map[string]bool{}}
 	for _, r := range ct.Reveal {
 		e.reveal[r] = true
 	}
@@ -290,6 +298,18 @@ func (p *Program) verifyUnit(ct *Contract, subst map[string]int64, suffix string
 	e.entry = &unitEntry{params: params, cells: entry, pkg: fn.Pkg.Pkg}
 	env0 := &SpecEnv{e: e, pkg: fn.Pkg.Pkg, params: params, cells: entry, old: entry}
 	p.applyStateSubst(e, env0, entry)
+	// scratch locations: their entry values are arbitrary "poison" constants
+	for _, sc := range ct.Scratch {
+		tgs := e.assignTargets(sc, env0)
+		if len(tgs) == 0 || tgs[0].addr == nil {
+			e.fail("scratch location %q has no address", sc)
+		}
+		v := c.freshVal(tgs[0].typ, "poison")
+		c.storeAt(entry, tgs[0].addr, v)
+		for _, t := range v.L {
+			e.poison = append(e.poison, t.S)
+		}
+	}
 	// ghost variables
 	for _, g := range ct.Ghosts {
 		t := env0.lookupType(g.Typ)
@@ -347,6 +367,9 @@ func (p *Program) verifyUnit(ct *Contract, subst map[string]int64, suffix string
 				post.vars[name] = gv
 			}
 		}
+		for _, us := range ct.UsesAtReturn {
+			p.useLemma(e, ct, us, post, r.Cond)
+		}
 		for i, en := range ct.Ensures {
 			g := e.evalSpecBool(en, post, nil, nil)
 			label := en.Label
@@ -360,6 +383,22 @@ func (p *Program) verifyUnit(ct *Contract, subst map[string]int64, suffix string
 		if !ct.NoFrame {
 			p.frameCheck(e, ct, fn, env0, entry, r)
 		}
+	}
+	// non-interference: the result does not depend on the entry values of the scratch locations
+	if len(e.poison) > 0 && len(rets) > 0 {
+		var conds []Term
+		for _, r := range rets {
+			conds = append(conds, r.Cond)
+		}
+		var ts []Term
+		for j := range rets[0].Res {
+			cur := rets[len(rets)-1].Res[j]
+			for i := len(rets) - 2; i >= 0; i-- {
+				cur = c.iteVal(rets[i].Cond, rets[i].Res[j], cur)
+			}
+			ts = append(ts, cur.L...)
+		}
+		e.obligeRel("result", c.or(conds...), ts, token.NoPos)
 	}
 	// vacuity: some return is reachable under the precondition
 	if len(rets) > 0 {
@@ -390,6 +429,14 @@ func (p *Program) splitExhaustive(e *Exec, ct *Contract, env *SpecEnv) {
 		v := env.eval(x)
 		var alts []Term
 		for _, k := range sp.Vals {
+			if v.T().Sort.K == SBool {
+				if k != 0 {
+					alts = append(alts, v.T())
+				} else {
+					alts = append(alts, e.c.not(v.T()))
+				}
+				continue
+			}
 			alts = append(alts, e.c.eq(v.T(), bvLitI(v.T().Sort.W, int64(k))))
 		}
 		e.c.oblige(&Oblig{Name: e.unit + "#split-exhaustive:" + sp.Var, Label: sp.Var, Kind: "split-exhaustive", Fn: e.unit, Goal: e.c.or(alts...), Props: ct.Props})
